@@ -1141,7 +1141,8 @@ fn system_table(
                     Cell::Inet(n.ip),
                     text_cell(&n.dc),
                     text_cell(&n.rack),
-                    Cell::List(n.tokens.iter().map(|t| text_cell(&t.to_string())).collect()),
+                    // A zero-token node reports a null token set.
+                    if n.tokens.is_empty() { Cell::Null } else { Cell::List(n.tokens.iter().map(|t| text_cell(&t.to_string())).collect()) },
                 ]
             })
             .collect();
@@ -1168,7 +1169,7 @@ fn system_table(
                     Cell::Inet(n.ip),
                     text_cell(&n.dc),
                     text_cell(&n.rack),
-                    Cell::List(n.tokens.iter().map(|t| text_cell(&t.to_string())).collect()),
+                    if n.tokens.is_empty() { Cell::Null } else { Cell::List(n.tokens.iter().map(|t| text_cell(&t.to_string())).collect()) },
                     text_cell(&w.cluster.name),
                 ]],
             )
